@@ -110,7 +110,7 @@ def build(C, f64=False):
         for fr in range(C["nFrames"]):
             for cam in range(C["nCams"]):
                 cell = C["cells"][fr][cam]
-                data[fr, cam] = None if cell is None else _f32(cell, (-1, 2))
+                data[fr, cam] = None if cell is None else _f32(cell, (-1, 2), f64)
         b.data = data
         b._camMap = list(C["camMap"])
     elif t == "calib":
